@@ -33,7 +33,7 @@ def describe(rep):
              C.update_solution, C.prepare_Jacobians, ParaDiagController.FFT_in_time, ParaDiagController.iFFT_in_time)
     rep.explanation = __doc__
     rep.rule = 'case = (n_steps, alpha) for the tables; (M, n_steps, alpha, dt*lambda) for the sweeper / controller iteration; one or two SMT queries (QF_LRA) over all data in the unit box'
-    rep.assume('alpha is enumerated (fractional powers cannot be symbolic)', 'tolerances: 1e-9 * cond(J) for the tables, 1e-8 for the iteration (float eigen-decomposition and DFT matrices)',
+    rep.assume('alpha is enumerated (fractional powers cannot be symbolic)', 'tolerances calibrated against measured rounding (1-5 eps cond(J)): (1e-13 cond(J) + 1e-12) L for the tables, 1e-10 + 1e-13 cond(J) for the iteration',
                'linear scalar Dahlquist problem with an exact Jacobian solve; averaged Jacobian is irrelevant for linear problems')
     rep.out_of_scope('alpha symbolic', 'n_steps > 8', 'nonlinear problems / averaged Jacobians', 'converged multi-block runs beyond the one-iteration + fixed-point argument', 'the MPI ParaDiag path')
 
@@ -42,12 +42,12 @@ def tasks(tier, seed):
     T = []
     quick = tier == 'quick'
     for L in (range(1, 7) if quick else range(1, 9)):
-        for alpha in ((1.0, 1e-2, 1e-8) if quick else (1.0, 0.5, 1e-2, 1e-4, 1e-8)):
+        for alpha in ((1.0, 1e-2, 1e-8, 1e-10) if quick else (1.0, 0.5, 1e-2, 1e-4, 1e-8, 1e-10, 1e-12)):
             T.append(('tables', L, alpha))
     for M in ((1, 2, 3) if quick else (1, 2, 3, 4, 5)):
         T.append(('sweeper', M, 'implicit'))
         T.append(('sweeper', M, 'imex'))
-    for (M, L, alpha) in (((2, 2, 1e-2), (2, 3, 1e-4), (1, 3, 0.5), (3, 2, 1e-2)) if quick else ((2, 2, 1e-2), (2, 3, 1e-4), (1, 3, 0.9), (3, 2, 1e-2), (2, 4, 1e-3), (3, 3, 1e-6), (1, 5, 0.5))):
+    for (M, L, alpha) in (((2, 2, 1e-2), (2, 3, 1e-4), (1, 3, 0.5), (3, 2, 1e-2), (2, 5, 1e-10), (1, 6, 1e-9)) if quick else ((2, 2, 1e-2), (2, 3, 1e-4), (1, 3, 0.9), (3, 2, 1e-2), (2, 4, 1e-3), (3, 3, 1e-6), (1, 5, 0.5), (2, 5, 1e-10), (1, 7, 1e-9), (1, 8, 1e-10), (2, 4, 1e-12))):
         T.append(('iteration', M, L, alpha))
     return T
 
@@ -94,7 +94,8 @@ def tables_case(rep, L, alpha):
     Wi = np.asarray(ph.get_weighted_iFFT_matrix(L, alpha))
     E = np.asarray(ph.get_E_matrix(L, alpha).todense(), dtype=complex)
     condJ = float(alpha ** (-(L - 1) / L)) if alpha < 1 else 1.0
-    tol = rv(Fraction(1, 10**9) * frac(condJ) * L)
+    # calibrated: the float tables deviate by at most ~4 eps cond(J); the tolerance leaves a factor > 100
+    tol = rv((Fraction(1, 10**13) * frac(condJ) + Fraction(1, 10**12)) * L)
     xr = [z3.Real(f'xr{j}') for j in range(L)]
     xi = [z3.Real(f'xi{j}') for j in range(L)]
     # inverse transforms
@@ -106,7 +107,7 @@ def tables_case(rep, L, alpha):
     if res == 'sat':
         rep.replayed += 1
         dev = float(np.abs(Wi @ W - np.eye(L)).max())
-        if dev > 1e-8 * condJ:
+        if dev > (1e-13 * condJ + 1e-12) * L:
             rep.violation(f'{PID}/tables/inverse', f'{name}: |iFFT FFT - I| = {dev:.3e}', {'task': ['tables', L, alpha], 'deviation': dev})
         else:
             rep.unreproduced(name, dev)
@@ -145,13 +146,13 @@ def tables_case(rep, L, alpha):
     if res == 'sat':
         rep.replayed += 1
         dev = float(np.abs(W @ E @ Wi - np.diag(D)).max())
-        if dev > 1e-8 * condJ:
+        if dev > (1e-13 * condJ + 1e-12) * L:
             rep.violation(f'{PID}/tables/diagonalisation', f'{name}: |W E_alpha W^-1 - diag(D)| = {dev:.3e}', {'task': ['tables', L, alpha], 'deviation': dev})
         else:
             rep.unreproduced(name, dev)
     if L >= 2:
         D2 = list(D)
-        D2[1] = D2[1] + 20 * 1e-9 * condJ * L  # a deviation of 20 tolerances must be noticed (the tolerance grows with cond(J) = alpha^-(L-1)/L)
+        D2[1] = D2[1] + 20 * (1e-13 * condJ + 1e-12) * L  # a deviation of 20 tolerances must be noticed (the tolerance grows with cond(J) = alpha^-(L-1)/L)
         goal2 = []
         dr, di = float(np.real(D2[1])), float(np.imag(D2[1]))
         sr = rv(dr) * xr[1] - rv(di) * xi[1]
@@ -263,7 +264,8 @@ def iteration_case(rep, M, L, alpha):
             prev = dv[l - 1][M - 1] if l > 0 else rv(alpha) * dv[L - 1][M - 1]
             defs.append(dv[l][m] - z * sum(rv(Q[m + 1, j + 1]) * dv[l][j] for j in range(M)) - prev == r[l][m])
     condJ = float(alpha ** (-(L - 1) / L)) if alpha < 1 else 1.0
-    tol = rv(Fraction(1, 10**8) * frac(condJ))
+    # calibrated: the real float iteration deviates from the exact one by 1-5 eps cond(J)
+    tol = rv(Fraction(1, 10**10) + Fraction(1, 10**13) * frac(condJ))
     goal = []
     for l in range(L):
         for m in range(M):
@@ -277,7 +279,7 @@ def iteration_case(rep, M, L, alpha):
         rep.replayed += 1
         env = {str(v): float(model_value(m_, v)) for v in allv}
         dev = float_iteration(M, L, alpha, lam, dt, env)
-        if dev > 1e-7 * condJ:
+        if dev > 1e-10 + 1e-13 * condJ:
             rep.violation(f'{PID}/iteration', f'{name}: real it_ParaDiag deviates from the preconditioned all-at-once iteration by {dev:.3e}', {'task': ['iteration', M, L, alpha], 'env': env, 'deviation': dev})
         else:
             rep.unreproduced(name, {'env': env, 'dev': dev})
